@@ -22,6 +22,7 @@ ROOT = os.path.dirname(HERE)
 sys.path.insert(0, HERE)
 import extract as X   # noqa: E402
 import weave as W     # noqa: E402
+import probe as P     # noqa: E402
 
 REPO = os.environ.get('VP_REPO', '/repo')
 BUILD = os.environ.get('VERIF_BUILD', os.path.join(ROOT, 'build'))
@@ -552,6 +553,22 @@ def check_property(pid, tier, res=None, vres=None, quiet=False):
     lines_out = []
     for oid, what in sorted(set(known_hits)):
         lines_out.append('KNOWN-FINDING: property=%s %s (%s)' % (pid, what, oid))
+    # counterexample search on the real code: whenever the proof is not clean for this property, and always in the thorough tier
+    probe = None
+    if violations or tainted_failed or resource or tier == 'thorough':
+        probe = P.run_probe(REPO, BUILD)
+    pf = (probe or {}).get('findings', {}).get(pid, [])
+    pf = [f for f in pf if not any(k['property'] == pid and k['obligation'] == 'probe' and k['site'] in f for k in known)]
+    if pf and not violations:
+        # no directly failed obligation (green proof, or undecided), but a concrete failing input exists on the real code
+        verdict = 1
+        rp = os.path.join(ROOT, 'replays', '%s-probe.json' % pid)
+        json.dump({'property': pid, 'failed_obligation': ('; '.join(sorted('%s#%s' % k for k in tainted_failed)) or 'none discharged-status changed') ,
+                   'counterexample': pf[:10], 'found_by': 'replay probe probes/vp_probe.rs on the real code (oracle: cacophony test vectors / the property statement)',
+                   'reproduce': 'python3 framework/probe.py   (prints the PROBE-FINDING lines for the current /repo working tree)',
+                   'note': 'The deductive check could not decide this property on this tree (lost proof anchor / construct outside the verifier\'s reach) or holds for the verified text; the probe exhibits a concrete failing input.',
+                   'repo': REPO}, open(rp, 'w'), indent=1)
+        lines_out.append('VIOLATION property=%s replay=%s' % (pid, rp))
     if violations:
         verdict = 1
         byo = {}
@@ -563,16 +580,18 @@ def check_property(pid, tier, res=None, vres=None, quiet=False):
                        'clause': es[0].get('clause', ''), 'contract_location': es[0].get('where', ''),
                        'sites_in_extracted_code': [x.get('site', '') for x in es],
                        'verifier': 'verus ' + verus_version(), 'verifier_output': [x.get('rendered', '') for x in es],
-                       'counterexample': None,
-                       'note': 'Verus gives no counterexample; no concrete failing input was searched/found for this obligation.',
+                       'counterexample': pf[:10] if pf else None,
+                       'reproduce': 'python3 framework/probe.py' if pf else None,
+                       'note': ('Verus gives no counterexample; the replay probe found concrete failing inputs on the real code (listed under counterexample).' if pf else
+                                'Verus gives no counterexample and the replay probe (probes/vp_probe.rs) found no failing input for this property.'),
                        'repo': REPO}, open(rp, 'w'), indent=1)
-            lines_out.append('VIOLATION property=%s replay=%s obligation=%s no-failing-input-found' % (pid, rp, oid))
-    elif tainted_failed:
+            lines_out.append('VIOLATION property=%s replay=%s obligation=%s%s' % (pid, rp, oid, '' if pf else ' no-failing-input-found'))
+    elif tainted_failed and not pf:
         for l in lines_out:
             print(l)
         raise Undecided('obligation(s) %s failed in function(s) whose proof hints lost their anchor (%s); no counterexample available -> not reported as a violation'
                         % (sorted('%s#%s' % k for k in tainted_failed), sorted({h['anchor'] for h in lost_hints if h['fn'] in {k[0] for k in tainted_failed}})[:3]))
-    elif resource:
+    elif resource and not pf:
         raise Undecided('resource limit / solver give-up in %s' % sorted({e.get('fn') for e in resource}))
     # evidence
     fn_list = sorted(fns_mine)
@@ -601,11 +620,13 @@ def check_property(pid, tier, res=None, vres=None, quiet=False):
             'result_cache_hit': res['cache_hit'],
             'whole_file_verified_functions': res['verified'], 'whole_file_failed_functions': res['nerrors'],
             'vacuity_probe': vac_note or 'not run in this tier',
+            'replay_probe': ({'ran': True, 'tests': probe.get('tests'), 'findings_for_this_property': pf, 'wall_s': probe.get('wall_s'), 'cache_hit': probe.get('cache_hit'), 'error': probe.get('error')}
+                             if probe else {'ran': False, 'why': 'the proof is clean for this property; the counterexample search runs only on failure/undecided or in the thorough tier'}),
             'all_obligations': sorted('%s#%s' % k for k in mine),
         },
         'assumptions': ASSUMPTIONS_COMMON + PROP_ASSUMPTIONS.get(pid, []),
         'wall_s': round(time.time() - t0 + (0 if res['cache_hit'] else res['wall_s']), 2),
-        'violations': len({oid for oid, _ in violations}),
+        'violations': len({oid for oid, _ in violations}) + (1 if (pf and not violations) else 0),
     }
     os.makedirs(os.path.join(ROOT, 'evidence'), exist_ok=True)
     json.dump(ev, open(os.path.join(ROOT, 'evidence', pid + '.json'), 'w'), indent=1)
@@ -628,6 +649,33 @@ ASSUMPTIONS_COMMON = [
     'Features: default + std; hfs, risky-raw-split, nightly and no_std builds are not verified',
 ]
 PROP_ASSUMPTIONS = {}
+
+
+def undecided_fallback(pids, tier, why):
+    """the verifier could not even be run on this tree (a contract lost its anchor, or the code uses a construct Verus
+    rejects).  That is never an alarm by itself; but a concrete failing input found on the real code is."""
+    print('UNDECIDED (deductive check): %s' % why.split('\n')[0][:400])
+    probe = P.run_probe(REPO, BUILD)
+    known = load_known()
+    rc = 2
+    os.makedirs(os.path.join(ROOT, 'replays'), exist_ok=True)
+    os.makedirs(os.path.join(ROOT, 'evidence'), exist_ok=True)
+    for pid in pids:
+        pf = [f for f in probe.get('findings', {}).get(pid, []) if not any(k['property'] == pid and k['obligation'] == 'probe' and k['site'] in f for k in known)]
+        if pf:
+            rp = os.path.join(ROOT, 'replays', '%s-probe.json' % pid)
+            json.dump({'property': pid, 'failed_obligation': 'undecided: ' + why[:600], 'counterexample': pf[:10],
+                       'found_by': 'replay probe probes/vp_probe.rs on the real code', 'reproduce': 'python3 framework/probe.py', 'repo': REPO}, open(rp, 'w'), indent=1)
+            print('VIOLATION property=%s replay=%s' % (pid, rp))
+            rc = 1
+        else:
+            print('UNDECIDED %s: %s; the replay probe found no failing input%s' % (pid, why.split('\n')[0][:200], (' (probe error: %s)' % probe['error'][:200]) if probe.get('error') else ''))
+        json.dump({'property_id': pid, 'tier': tier, 'seed': int(os.environ.get('VERIF_SEED', '0') or 0), 'level': 'other',
+                   'coverage': {'explanation': 'The deductive check was UNDECIDED on this tree (%s). Counterexample search on the real code: %d probe tests, findings for this property: %s' % (why.split('\n')[0][:300], len(probe.get('tests', {})), pf[:5]),
+                                'replay_probe': {'tests': probe.get('tests'), 'findings_for_this_property': pf}},
+                   'assumptions': ['undecided run: no proof obligations were discharged'], 'wall_s': probe.get('wall_s', 0.0), 'violations': 1 if pf else 0},
+                  open(os.path.join(ROOT, 'evidence', pid + '.json'), 'w'), indent=1)
+    return rc
 
 
 def main(argv):
@@ -660,19 +708,23 @@ def main(argv):
         vres = None
         if tier == 'thorough' or os.environ.get('VERIF_VACUITY', '1') == '1':
             vres = collect(vacuity=True)
-    except (X.AnchorLost, W.AnchorLost) as e:
-        print('UNDECIDED: anchor lost: %s' % e)
-        return 2
-    except Undecided as e:
-        print('UNDECIDED: %s' % e)
-        return 2
+    except (X.AnchorLost, W.AnchorLost, Undecided) as e:
+        why = ('anchor lost: %s' % e) if not isinstance(e, Undecided) else str(e)
+        return undecided_fallback(pids, tier, why)
     for pid in pids:
         try:
             r = check_property(pid, tier, res=res, vres=vres)
-            rc = max(rc, r) if rc != 2 else rc
+            if r == 1:
+                rc = 1
         except Undecided as e:
-            print('UNDECIDED %s: %s' % (pid, e))
-            if rc == 0:
+            if 'no obligation is tagged' in str(e):
+                print('UNDECIDED %s: %s' % (pid, e))
+                r = 2
+            else:
+                r = undecided_fallback([pid], tier, str(e))
+            if r == 1:
+                rc = 1
+            elif rc == 0:
                 rc = 2
     return rc
 
